@@ -181,6 +181,9 @@ struct ares_query {
   size_t        timeouts;   /* number of timeouts we saw for this request */
   ares_bool_t   no_retries; /* do not perform any additional retries, this is
                              * set when a query is to be canceled */
+  ares_bool_t   cancel_pending; /* selected by a running ares_cancel(), which
+                                 * only cancels the queries that existed when
+                                 * it was called */
 };
 
 struct apattern {
